@@ -112,7 +112,7 @@ def run(ctx):
                 rep.violation('oracle', {'property': 'C17', 'kind': c['kind'], 'seed': ctx.seed, 'case': c['id'], 'file_hex': c['bytes'].hex()[:4000],
                                          'difference': bad, 'implementation': (got or '')[:1500], 'line': c['line'][:9000]})
         elif model is not None:
-            mine = (got or '').split(' vfs=')[0].split(' fs=')[0]
+            mine = (got or '').split(' vfs=')[0].split(' cli=')[0].split(' fs=')[0]
             if mine != (model.get(c['id']) or ''):
                 n_mm += 1
                 if n_mm <= 3:
